@@ -205,7 +205,7 @@ func c16run(r *kit.Run, rng *rand.Rand, s c16Scn, first bool) {
 		for _, sy := range symptoms {
 			if !c16famDeregistered[sy] && !c16famSessionGone[sy] && !seen[sy] {
 				seen[sy] = true
-				if strings.HasPrefix(sy, "admin-delete") || strings.HasPrefix(sy, "old-connection-") || strings.HasPrefix(sy, "http-publish-") {
+				if strings.HasPrefix(sy, "admin-delete") || strings.HasPrefix(sy, "persisted-") || strings.HasPrefix(sy, "old-connection-") || strings.HasPrefix(sy, "http-publish-") {
 					// failures that do not depend on the reconnect/takeover schedule they were seen in
 					r.Violation("any-schedule:"+sy, base())
 				} else {
@@ -274,21 +274,34 @@ func c16run(r *kit.Run, rng *rand.Rand, s c16Scn, first bool) {
 	}
 	ka := uint16(0)
 	if s.End == "keepalive" {
-		ka = 1
+		ka = 2 // the broker's read deadline is 1.5 x keepalive = 3 s after the old connection's last packet
+	}
+	// In the keep-alive schedules the broker may legitimately end the old connection at any
+	// moment once 3 s have passed since its last packet.  If this machine is so slow that this
+	// happens before the new connection is up, the schedule was not established: the case is
+	// skipped and counted, never judged.
+	kaEarly := func() bool {
+		if s.End == "keepalive" {
+			r.Count("keepalive_deadline_fired_before_the_new_connect(case skipped)", 1)
+			return true
+		}
+		return false
 	}
 	if rc, st := a.connect(s.OldClean, ka); st != "ok" || rc != 0 {
 		bad("old-connection-refused", map[string]interface{}{"state": st, "rc": rc})
 		return
 	}
 	if st := a.subscribe([]string{f1}, []byte{1}); st != "ok" {
-		inc("old subscribe: " + st)
+		if st == "watchdog" || !kaEarly() {
+			inc("old subscribe: " + st)
+		}
 		return
 	}
 	step("old: CONNECT clean=%v, SUBSCRIBE %s", s.OldClean, f1)
 	if pl, ok := inject(t1, 1); !ok {
 		return
 	} else if got, st := has(a, pl); st != "ok" {
-		if !inconclusive {
+		if !inconclusive && !kaEarly() {
 			bad("old-connection-closed-by-broker", nil)
 		}
 		return
@@ -302,12 +315,14 @@ func c16run(r *kit.Run, rng *rand.Rand, s c16Scn, first bool) {
 		return
 	}
 	if !s.OldClean {
-		// precondition of the reconnect clauses: the persisted copy has the subscription.  The
-		// hand-over to the store is asynchronous and unordered; a stale snapshot written last is
-		// counted and the case skipped (nothing in this monitor can steer that race).
+		// The persisted copy must have the subscription once every store hand-over has finished
+		// (it is what a later cleanSession=false reconnect is restored from).  The hand-over is
+		// one goroutine per Session.store() call, so snapshots can be written out of order; this
+		// monitor cannot steer that race, it can only observe its result.  The rest of the
+		// schedule is not run on a broken precondition.
 		if tp, ok := rb.persistedTopics(cid); !ok || tp[f1] != 1 {
-			r.Count("persisted_copy_stale_after_quiescence(case skipped)", 1)
-			r.Note("persisted session of %s lacked %s after all store hand-overs had finished: %v", cid, f1, tp)
+			r.Count("persisted_copy_stale_after_all_stores_finished", 1)
+			bad("persisted-session-stale-after-all-stores-finished", map[string]interface{}{"persisted_topics": tp, "persisted_copy_exists": ok, "live_session_has": f1})
 			return
 		}
 	}
@@ -368,6 +383,19 @@ func c16run(r *kit.Run, rng *rand.Rand, s c16Scn, first bool) {
 		return
 	}
 	step("new: CONNECT clean=%v accepted", s.NewClean)
+	if s.End == "keepalive" {
+		tornDown := false
+		select {
+		case <-la.upClosed:
+			tornDown = true
+		default:
+		}
+		if tornDown || rb.store.heldCount() > 0 {
+			// the old connection's teardown was already under way when the new CONNECT was answered
+			kaEarly()
+			return
+		}
+	}
 	if s.Point == 1 && !endOld() {
 		return
 	}
